@@ -44,7 +44,9 @@ SimModes == {<<"all", <<>>, <<>>>>, <<"classes", <<EX \o "C">>, <<>>>>, <<"class
              <<"shapemap", <<>>, <<ItemNode("L0", a), ItemNode("L0", b), ItemNode("L1", c)>>>>,
              <<"shapemap", <<>>, <<ItemPat("L0", FocusSel, P1, NoSel), ItemNode("L1", a)>>>>,
              <<"shapemap", <<>>, <<ItemPat("L0", NoSel, P2, FocusSel), ItemPat("L1", FocusSel, T, CA)>>>>,
-             <<"mixed", <<>>, <<ItemNode("L0", a), ItemNode("L0", u)>>>>}
+             \* one label given by several entries whose selections overlap, adjacent and not (S, T, S)
+             <<"shapemap", <<>>, <<ItemPat("L0", FocusSel, P1, NoSel), ItemNode("L1", a), ItemPat("L0", FocusSel, T, CA), ItemNode("L0", a)>>>>,
+             <<"mixed", <<>>, <<ItemNode("L0", a), ItemNode("L0", u), ItemPat("L0", FocusSel, P2, NoSel)>>>>}
 SimCfgs == {[SimBase EXCEPT !.thr = t, !.keepLess = kl, !.discardUseless = du, !.allCompliant = ac, !.allowOpt = ao, !.disableExact = de,
                             !.inverse = iv, !.mode = md[1], !.targets = md[2], !.items = md[3], !.cap = cp,
                             !.disableOr = ors[1], !.redundantOr = ors[2], !.removeEmpty = re] :
